@@ -369,4 +369,20 @@ theorem evalEvs_main_eq (t : Tree) : ∀ (sw : List Switch) (u u' : UsageParams)
     rw [← this]
     exact ih u1 u' hr
 
+/-! ### the display settings of a built handler -/
+
+/-- the definition operations never touch the display settings (nor the flags): a handler built through them
+    still has the settings its constructor preset from its flags -/
+theorem built_params (h : Handler) (hb : h.Built) : h.params = (Handler.new h.flags).params := by
+  induction hb with
+  | new f => rfl
+  | add h a mods _ ih =>
+    unfold Handler.addArgument
+    split <;> simpa using ih
+  | lineLen h h' n _ e ih =>
+    unfold Handler.setLineLength at e
+    split at e
+    · simp at e
+    · simp only [Res.ok.injEq] at e; subst e; simpa using ih
+
 end CelmaVerif.Usage
